@@ -39,6 +39,8 @@ FLAT = (".flatten", ".ravel")
 
 
 def check(run):
+    from .c06 import depends_on
+    depends_on(run, "C18", {"E4"}, only=lambda rule, inst: "wrappers" in inst or "validators" in inst)  # no answer / encoding kept across calls
     _check_own(run)
     # COPY: a copied wrapper keeps its model function, its feature order and its label memory
     from .copylib import copy_protocol
@@ -470,6 +472,35 @@ def _dispatch(run, prog, W):
         isinstance(first.then[-1], ir.Return) and first.then[-1].value == p
     run.check(ok, "DISPATCH", "wrapper-passthrough", f"{s.path}:{s.fn.lineno}", fq, "Wrapper instances",
               "Wrapper instances must be returned unchanged before any other test", "isinstance(f, Wrapper) -> f")
+    # the model a bound method belongs to is an arbitrary object: asking for its truth value calls its __len__ /
+    # __bool__ (an ensemble that has not learned yet is empty, hence false; an unfitted sklearn ensemble raises) --
+    # "is there an owner" must be asked with `is None`
+    def owner_like(t):
+        return any(x == ("const", "__self__") or (x[0] == "attr" and len(x) > 2 and x[2] == "__self__") for x in ir.subterms(t))
+
+    def raw_tests(t):
+        """operands of and/or/not and conditions of selections inside t that are objects rather than truth values"""
+        out = []
+        for x in ir.subterms(t):
+            ops = x[1] if x[0] in ("and", "or") else ((x[1],) if x[0] in ("not", "gate") else ())
+            for o in ops:
+                if isinstance(o, tuple) and o and o[0] not in ("cmp", "not", "and", "or", "const") and \
+                        not (o[0] == "fn" and o[1] in ("isinstance", "hasattr", "callable", "bool", "issubclass")) and owner_like(o):
+                    out.append(o)
+        return out
+    tested = []
+    for ev, ctx in walk(s.events, structural=True):
+        for part in ev:
+            if isinstance(part, tuple):
+                tested += raw_tests(part)
+        if isinstance(ev, ir.If) and isinstance(ev.cond, tuple) and ev.cond[0] not in ("cmp", "not", "and", "or") and owner_like(ev.cond) \
+                and not (ev.cond[0] == "fn" and ev.cond[1] in ("isinstance", "hasattr", "callable")):
+            tested.append(ev.cond)
+    run.check(not tested, "DISPATCH", "owner-by-identity", f"{s.path}:{s.fn.lineno}", fq,
+              f"truth value taken of {ir.show_nl(tested[0])[:100] if tested else ''}",
+              f"the model object a bound method belongs to is tested for truth ({ir.show_nl(tested[0])[:120] if tested else ''}): "
+              f"models that define __len__ are false while empty (river ensembles before the first learn_one) or raise "
+              f"(unfitted sklearn ensembles), so their methods are not wrapped", "the owner is only compared with None")
     want = {"sklearn": "SklearnWrapper", "river": "RiverWrapper"}
     for ev, ctx in walk(s.events):
         if isinstance(ev, ir.Construct):
